@@ -7,7 +7,7 @@ rtc  : bounded run-time-contract driver (stand-in; never counted as proved)"""
 # the type model as a refinement of the real classes (contracts/types.py)
 TYPE_VC = ['cat.Ob.__init__', 'monoidal.Ty.__init__', 'monoidal.Ty.objects', 'monoidal.Ty.tensor', 'monoidal.Ty.__matmul__',
            'monoidal.Ty.__getitem__', 'monoidal.Ty.__len__', 'monoidal.Ty.__eq__', 'monoidal.Ty.upgrade',
-           'monoidal.Ty.downgrade', 'monoidal.Ty.__iter__', 'cat.Arrow.upgrade', 'monoidal.Diagram.upgrade',
+           'monoidal.Ty.downgrade', 'monoidal.Ty.__iter__', 'monoidal.Ty.__pow__', 'lemma:type.power.commutes', 'cat.Arrow.upgrade', 'monoidal.Diagram.upgrade',
            'monoidal.Diagram.subclass.<locals>.upgrade']
 ADJOINT_VC = ['rigid.Ob.__init__', 'rigid.Ob.l', 'rigid.Ob.r', 'rigid.Ob.z', 'rigid.Ty.__init__', 'rigid.Ty.upgrade',
               'rigid.Ty.l', 'rigid.Ty.r', 'rigid.Ty.z', 'rigid.Ty.__lshift__', 'rigid.Ty.__rshift__',
